@@ -255,6 +255,10 @@ def _pairs_literal(model: Model, fi: FuncInfo, it: ast.AST) -> Optional[List[Tup
         it, items = it.func.value, True
     lit = None
     name = None
+    sub_key = None
+    if isinstance(it, ast.Subscript) and isinstance(it.slice, ast.Constant):
+        # TABLES["Select"]: one entry of a literal dict of tables
+        it, sub_key = it.value, it.slice.value
     if isinstance(it, ast.Name) and it.id not in fi.params:
         name = it.id
         lit = fi.module.assigns.get(name)
@@ -271,6 +275,13 @@ def _pairs_literal(model: Model, fi: FuncInfo, it: ast.AST) -> Optional[List[Tup
                     return None
     if lit is None:
         return None
+    if sub_key is not None:
+        if not isinstance(lit, ast.Dict):
+            return None
+        hits = [v for k, v in zip(lit.keys, lit.values) if isinstance(k, ast.Constant) and k.value == sub_key and type(k.value) is type(sub_key)]
+        if len(hits) != 1:
+            return None
+        lit = hits[0]
     if isinstance(lit, ast.Dict) and items:
         if any(k is None or not _pure(k) for k in lit.keys) or not all(_pure(v) for v in lit.values):
             return None
